@@ -288,7 +288,8 @@ def core (s : St) : Ev → Option St
       let P := s.pool p
       if T.live = true ∧ T.loc = some q ∧ T.holder = none ∧ (s.act a).starting = none ∧ T.lpool = p ∧ P.opq = false ∧
           ((T.lidx = w ∧ T.lcls ≠ cLow) ∨ T.lcls = cLow ∨ (P.steal = true ∧ T.lcls ≠ cLow)) then
-        some { s with task := upd s.task o { T with loc := none, holder := some a, hpool := p, hidx := w } }
+        -- (the scheduling loop stores `last_worker_thread_num_ = w` before it runs the phase)
+        some { s with task := upd s.task o { T with loc := none, holder := some a, hpool := p, hidx := w, lw := (w : Int) :: T.lw } }
       else none
   | .phaseBegin a o w =>
     let T := s.task o
@@ -298,7 +299,7 @@ def core (s : St) : Ev → Option St
       if T.live = true ∧ T.inPhase = false ∧ w' = w ∧ (s.act a).starting = none then
         if (s.pool p).opq = true then
           if T.sched = p ∧ T.holder = none ∧ T.loc = none then
-            some { s with task := upd s.task o { T with holder := some a, hpool := p, hidx := w, inPhase := true } }
+            some { s with task := upd s.task o { T with holder := some a, hpool := p, hidx := w, inPhase := true, lw := (w : Int) :: T.lw } }
           else none
         else if T.holder = some a then
           some { s with task := upd s.task o { T with inPhase := true } }
@@ -337,7 +338,8 @@ def core (s : St) : Ev → Option St
     -- the receiver of the schedule operation is signalled: body of the created task
     let T := s.task o
     if T.live = true ∧ T.inPhase = true ∧ T.holder = some a ∧ (s.op k).started = true ∧ (s.op k).ran = false ∧
-        (if (s.pool (s.op k).target).opq = true then T.sched = (s.op k).target else T.payload = some k) then
+        ((s.pool (s.op k).target).opq = true → T.sched = (s.op k).target) ∧
+        ((s.pool (s.op k).target).opq = false → T.payload = some k) then
       some { s with op := upd s.op k { s.op k with ran := true } }
     else none
   | .runStd a k =>
